@@ -249,30 +249,38 @@ def monitor (mon : Mon) (m : Msg) (impl : String) : Option String :=
 structure DState where
   st : State := {}
   mon : Mon := {}
+  pid : String := ""     -- property under check (`property <PID>` record): only its clauses are reported
+
+/-- One stream serves C06 and C02: every clause starts with its property id, and a run for one
+property reports that property's clauses only. -/
+def forProperty (pid : String) (c : Option String) : Option String :=
+  match c with
+  | some cl => if pid == "" || cl.startsWith (pid ++ ":") then some cl else none
+  | none => none
 
 def engine : Engine DState where
   init := {}
   step d toks impl :=
     match toks with
-    | ["reset"] => ({}, { model := "ok" })
+    | ["reset"] => ({ pid := d.pid }, { model := "ok" })
+    | ["property", p] => ({ d with pid := p }, { model := "ok" })
     | _ =>
       match parseMsg toks with
       | none => (d, { model := "bad-op" })
       | some m =>
         let r := m.req
-        let (st', o) := if m.side == "s" then admit d.st r else (d.st, admitClient r)
+        let (st', o) := if m.side == "s" then admitReq d.st r else (d.st, admitClient r)
         let mw := match o with | .invoked h _ => h.name | _ => "-"
         let w := fillW r (showAnswer (answer r o)) (field "w" impl)
         let uh := fillUH (expectedUH m.side r o) (field "uh" impl)
         let stS := if m.side == "s" then showState st' else "-/0/"
         let model := s!"w={w} mw={mw} uh={uh} st={stS}"
-        let viol := monitor d.mon m impl
+        let viol := forProperty d.pid (monitor d.mon m impl)
         let isObs := (field "st" impl).isSome
         let mon' : Mon :=
           if !isObs then { d.mon with dead := true }
-          else
-            { d.mon with prevSt := (field "st" impl).getD d.mon.prevSt }
-        ({ st := st', mon := mon' }, { model := model, violated := viol })
+          else { d.mon with prevSt := (field "st" impl).getD d.mon.prevSt }
+        ({ d with st := st', mon := mon' }, { model := model, violated := viol })
 
 end Gate
 
